@@ -17,7 +17,7 @@ func init() {
 	Register(&Monitor{
 		ID:    "C11",
 		Level: "exploration",
-		Rule: "directed identity search: for every pair of distinct nodes (elements, attributes, text, comments) of each hostile-name document (names a, a-1, a-1-1, a-1-2, b1, a.b, a1; repeated names and values; same text at several depths) the union of the two absolute paths addressing exactly those nodes must deliver 2 nodes; " +
+		Rule: "directed identity search: for every pair of distinct nodes (elements, attributes, text, comments) of each hostile-name document (names a, a-1, a-1-1, a-1-2, b1, a.b, a1; repeated names and values; same text at several depths) and of wide documents whose same-named siblings have two-digit positions on several levels the union of the two absolute paths addressing exactly those nodes must deliver 2 nodes; " +
 			"plus seeded random unions of two or three predicate-free paths of 1-3 steps over all axes (overlapping and disjoint operands, attributes/text/comments, nested unions, the sequence form p/(a, b)). Non-trivial: both operands non-empty; distinct by (expression text, document, context).",
 		Assume:        []string{"reference evaluator internal/xref; node identity in the harness is pointer identity"},
 		MinNontrivial: tierN(6000, 80000),
@@ -74,11 +74,16 @@ func multisetCheck(c *Case, src string, ctx *xdoc.Node, got SelResult, want xref
 
 func c11Pairs(c *Case) {
 	d := hostileTree(c.G())
-	nodes := d.Nodes[1:]
 	limit := 40
 	if c.Tier == "thorough" {
 		limit = 70
 	}
+	if c.Index%4 == 3 {
+		// same-named siblings with two-digit positions on several levels
+		d = c.G().DigitTree()
+		limit = 90
+	}
+	nodes := d.Nodes[1:]
 	if len(nodes) > limit {
 		nodes = nodes[:limit]
 	}
